@@ -15,6 +15,7 @@ import DarkluaModel.Rules.ConvertIndexToField
 import DarkluaModel.Rules.NilDeclaration
 import DarkluaModel.Rules.UnusedVariable
 import DarkluaModel.Rules.UnusedVariableHeap
+import DarkluaModel.Rules.NilDeclarationHeap
 /-! Line-protocol handlers for property C01:
 * `c01.rule <rule-name-hex> <block>` → transformed block (the evaluator instance is the C08 model
   over IEEE doubles, `Rules/EvalC08.lean`);
@@ -91,6 +92,13 @@ def handle (op : String) (args : List String) : String :=
     match nameOfSexp? name, Block.ofSexp? block with
     | some n, some b => region n b
     | _, _ => "bad-request"
+  | "ndguard", some [block] =>
+    -- hypothesis `H` of `rule_refines_remove_nil_declaration_partial`
+    match Block.ofSexp? block with
+    | some b =>
+      if (Rules.NilDeclaration.Guarded.applyG driverApi b).toSexp.toString
+          == (Rules.NilDeclaration.apply driverApi b).toSexp.toString then "in" else "out"
+    | none => "bad-request"
   | "uvguard", some [block] =>
     -- hypothesis `H` of `rule_refines_remove_unused_variable_partial`: does the rule agree with its guarded version?
     match Block.ofSexp? block with
